@@ -28,7 +28,8 @@ import (
 )
 
 type input struct {
-	Kind     string         `json:"kind"` // series | cleanup
+	Kind     string         `json:"kind"` // series (TSDBStore) | bucket (BucketStore) | cleanup
+	Blocks   []tu.BlockIn   `json:"blocks,omitempty"`
 	Ext      []tu.Lbl       `json:"ext"`
 	Series   []tu.SeriesIn  `json:"series"`
 	Ms       []tu.MatcherIn `json:"ms"`
@@ -99,8 +100,12 @@ func run(raw json.RawMessage) (common.Case, error) {
 	var c common.Case
 	if in.Kind == "cleanup" {
 		tu.Cleanup()
+		tu.CleanupBucket()
 		c.Coq, c.Class = "CNop", "cleanup"
 		return c, nil
+	}
+	if in.Kind == "bucket" {
+		return runBucket(in)
 	}
 	sc, err := tu.GetScenario(in.Series)
 	if err != nil {
@@ -236,6 +241,129 @@ func run(raw json.RawMessage) (common.Case, error) {
 	return c, nil
 }
 
+// runBucket: BucketStore.Series over blocks in an in-memory bucket; observable = the label sets.
+func runBucket(in input) (common.Case, error) {
+	var c common.Case
+	sc, err := tu.GetBucketScenario(in.Blocks)
+	if err != nil {
+		return c, err
+	}
+	uni := map[string]struct{}{"": {}}
+	var coqBlocks []string
+	for _, b := range sc.Blocks {
+		tu.AddValues(uni, b.Ext)
+		var ss []string
+		for _, l := range b.Stored {
+			tu.AddValues(uni, l)
+			ss = append(ss, tu.CoqLabels(l))
+		}
+		coqBlocks = append(coqBlocks, common.Pair(tu.CoqLabels(b.Ext), common.List(ss)))
+	}
+	coqMs, _, err := tu.CoqMatchers(in.Ms, uni)
+	if err != nil {
+		return c, err
+	}
+	srv := &recServer{ctx: context.Background()}
+	rerr := sc.Store.Series(&storepb.SeriesRequest{
+		MinTime: math.MinInt64 / 2, MaxTime: math.MaxInt64 / 2,
+		Matchers:             tu.ToPB(in.Ms),
+		WithoutReplicaLabels: in.WRL,
+		SkipChunks:           in.Skip,
+		ResponseBatchSize:    in.Batch,
+	}, srv)
+	o := common.None
+	var sets []labels.Labels
+	if rerr == nil {
+		for _, f := range srv.frames {
+			sets = append(sets, labelpb.ZLabelsToPromLabels(f.Labels).Copy())
+		}
+		sort.SliceStable(sets, func(i, j int) bool { return labels.Compare(sets[i], sets[j]) < 0 })
+		var xs []string
+		var prev labels.Labels
+		for i, l := range sets {
+			if i > 0 && labels.Compare(prev, l) == 0 {
+				continue
+			}
+			prev = l
+			xs = append(xs, tu.CoqLabels(l))
+		}
+		o = common.Some(common.List(xs))
+	}
+	c.Coq = common.App("CBkt", common.List(coqBlocks), tu.CoqStrs(in.WRL), coqMs, o)
+	var desc []string
+	for _, l := range sets {
+		desc = append(desc, l.String())
+	}
+	c.Obs = map[string]any{"ok": rerr == nil, "series": desc}
+	if rerr != nil {
+		c.GoPred = "BucketStore.Series returned an error: " + rerr.Error()
+		c.Sig = "bucket-series-error"
+	}
+	drop := map[string]bool{}
+	for _, d := range in.WRL {
+		drop[d] = true
+	}
+	collide := false
+	for _, l := range sets {
+		for d := range drop {
+			if l.Has(d) {
+				c.GoPred = fmt.Sprintf("bucket store: series %s still carries dropped label %s", l, d)
+				c.Sig = "dropped-label-present"
+			}
+		}
+		ok := false
+		for _, b := range sc.Blocks {
+			all := true
+			b.Ext.Range(func(x labels.Label) {
+				if !drop[x.Name] && l.Get(x.Name) != x.Value {
+					all = false
+				}
+			})
+			ok = ok || all
+		}
+		if !ok {
+			c.GoPred = fmt.Sprintf("bucket store: series %s carries the external labels of none of the blocks", l)
+			c.Sig = "missing-external-label"
+		}
+	}
+	for _, b := range sc.Blocks {
+		for _, sl := range b.Stored {
+			b.Ext.Range(func(x labels.Label) {
+				if sl.Has(x.Name) && sl.Get(x.Name) != x.Value {
+					collide = true
+				}
+			})
+		}
+	}
+	c.Class = "bucket"
+	c.Nontrivial = len(sets) > 0 && (collide || len(in.WRL) > 0)
+	return c, nil
+}
+
+func genBlocks(r *rand.Rand) []tu.BlockIn {
+	var out []tu.BlockIn
+	n := 1 + r.Intn(3)
+	for i := 0; i < n; i++ {
+		b := tu.BlockIn{}
+		used := map[string]bool{}
+		b.Ext = append(b.Ext, tu.Lbl{"cluster", common.Pick(r, "c1", "c1", "c2")})
+		used["cluster"] = true
+		for q := r.Intn(3); q > 0; q-- {
+			nm := common.Pick(r, "region", "replica", "a", "zone")
+			if used[nm] {
+				continue
+			}
+			used[nm] = true
+			b.Ext = append(b.Ext, tu.Lbl{nm, common.Pick(r, "eu", "us", "1", "r0", "r1")})
+		}
+		for _, s := range genSeries(r) {
+			b.Series = append(b.Series, s.Labels)
+		}
+		out = append(out, b)
+	}
+	return out
+}
+
 // ---- generator ----
 
 var (
@@ -304,6 +432,32 @@ func gen(r *rand.Rand, tier string, n int) []any {
 			in.Skip = r.Intn(12) == 0
 			in.Batch = common.Pick(r, int64(0), 0, 1, 2, 64)
 			out = append(out, in)
+		}
+	}
+	// BucketStore scenarios: 1/4 of the budget on top
+	for nb := 0; nb < n/4; {
+		blocks := genBlocks(r)
+		for k := 0; k < 8 && nb < n/4; k++ {
+			in := input{Kind: "bucket", Blocks: blocks}
+			for q := r.Intn(3); q >= 0; q-- {
+				m := tu.MatcherIn{Type: r.Intn(4), Name: common.Pick(r, "__name__", "a", "b", "region", "replica", "cluster", "zone"), Value: common.Pick(r, mvals...)}
+				if r.Intn(2) == 0 {
+					m = tu.MatcherIn{Type: 0, Name: "__name__", Value: common.Pick(r, "up", "m")}
+				}
+				in.Ms = append(in.Ms, m)
+			}
+			if r.Intn(4) == 0 {
+				e := blocks[r.Intn(len(blocks))].Ext
+				l := e[r.Intn(len(e))]
+				in.Ms = append(in.Ms, tu.MatcherIn{Type: r.Intn(4), Name: l[0], Value: common.Pick(r, l[1], l[1], "zz", "")})
+			}
+			for q := r.Intn(3); q > 0; q-- {
+				in.WRL = append(in.WRL, common.Pick(r, "replica", "region", "a", "cluster", "nope"))
+			}
+			in.Skip = r.Intn(3) == 0
+			in.Batch = common.Pick(r, int64(0), 0, 2, 64)
+			out = append(out, in)
+			nb++
 		}
 	}
 	out = append(out, input{Kind: "cleanup"})
